@@ -219,6 +219,39 @@ def run(ck):
             except ParameterError as e:
                 ck.count(("svp-param", i), nontrivial=False, bucket="binary helper refused: " + str(e)[:40])
 
+    # -------------------------------------------------------------------- spurious roots: whatever is returned must have fractions in [0,1]
+    # (models whose spreading pressure is also defined for negative pressures - Quadratic, Henry - as a minor component in any position,
+    #  with user starting guesses far from the solution)
+    for i in range(N):
+        nc = rng.choice([3, 3, 4])
+        names = [rng.choice(["Langmuir", "Henry", "Toth", "DSLangmuir"]) for _ in range(nc)]
+        pos = rng.randrange(nc) if rng.random() < 0.5 else nc - 1
+        names[pos] = "Quadratic"
+        plist = [pars(n) for n in names]
+        isos = [model_iso(n, p_, a) for n, p_, a in zip(names, plist, ADS)]
+        pp = np.array([rng.uniform(2, 8) for _ in range(nc)])
+        pp[pos] = rng.uniform(0.05, 0.8)
+        guesses = [[1.0 / nc] * nc]
+        g = [rng.uniform(0.005, 0.05) for _ in range(nc - 1)]
+        guesses.append(g + [1 - sum(g)])
+        g2 = np.array([rng.uniform(0.05, 1) for _ in range(nc)])
+        guesses.append((g2 / g2.sum()).tolist())
+        for guess in guesses:
+            ck.count(("spurious", tuple(names), pos, tuple(round(v, 3) for v in guess), i), bucket=f"user guess far from the solution:{nc} components")
+            try:
+                loads = np.asarray(pgi.iast_point(isos, pp, warningoff=True, adsorbed_mole_fraction_guess=guess), dtype=float)
+            except (CalculationError, ParameterError):
+                continue
+            except Exception as e:  # noqa
+                ck.fail_case({"kind": "user-guess", "components": nc, "clause": "iast_point raises a non-pyGAPS error", "error": type(e).__name__}, {"models": names, "error": repr(e)[:300]})
+                continue
+            sig = {"kind": "user-guess", "components": nc}
+            detail = {"models": names, "params": plist, "partial_pressures": pp.tolist(), "guess": guess}
+            if np.any(loads < 0) or not np.all(np.isfinite(loads)):
+                ck.fail_case({**sig, "clause": "adsorbed mole fractions not in [0,1] or not summing to one"}, {**detail, "loadings": loads.tolist()})
+                continue
+            certificate(isos, pp, loads, sig, detail, independent=False)
+
     # -------------------------------------------------------------------- refusals stated by the property's anchors
     for name in ["Freundlich", "DR", "Virial"]:
         try:
